@@ -2,7 +2,7 @@
    and searched at a run-time epsilon; in the model: IndexModel at c_eps = the run-time epsilon and
    c_epsrec = GenLeaf.c_epsilon_recursive (= 4, linear-scan routing).  The index contract of
    ComposeIdx.v instantiated at every run-time epsilon >= 1, and the NULL result of create. *)
-Require Import Base Fp PlaModel GenLeaf IndexModel IndexProofs IdxChain Reject ComposeIdx.
+Require Import Base Fp PlaModel GenLeaf IndexModel IndexProofs IdxChain Reject ComposeIdx ComposeBuild.
 From Coq Require Import ZifyBool.
 Local Open Scope Z_scope.
 
@@ -73,5 +73,20 @@ Proof.
   pose proof (do_last c data Hd). lia.
 Qed.
 
+(* create + search: on valid data of at most 2^30 keys create succeeds (no exception of any kind) and
+   every search below the reserved value satisfies the contract *)
+Theorem C18_create_search c data :
+  capi_like c -> c_par c <= 20 -> c_eps c <= 2 ^ 31 -> float_ok_all c -> data_ok c data -> zlen data <= 2 ^ 30 ->
+  exists ix, build c data = Ok ix /\
+    forall q, q < sentinel c ->
+      exists a, search c ix q = Ok a /\
+        0 <= a_lo a <= lb data q /\ lb data q <= a_hi a <= zlen data /\
+        (In q data -> lb data q < a_hi a) /\ a_hi a - a_lo a <= 2 * c_eps c + 2.
+Proof.
+  intros Hc Hp He Hf Hd Hn. apply build_search_contract; try assumption; [exact (capi_idx_ok c Hc)|].
+  constructor; try assumption. rewrite (cl_rec c Hc). unfold c_epsilon_recursive. lia.
+Qed.
+
+Print Assumptions C18_create_search.
 Print Assumptions C18_search_contract.
 Print Assumptions C18_create_null_iff.
